@@ -2,6 +2,7 @@ import Darling.Driver.C04
 import Darling.Driver.C05
 import Darling.Driver.FM
 import Darling.Driver.C18
+import Darling.Driver.C19
 import Darling.Generated.Facts
 /-
   `darling_model`: reads `<prop> <case-id> <sexp>` lines on stdin, answers `<case-id> <answer>`.
@@ -23,6 +24,7 @@ def answer (p : Params) (prop : String) (c : Sexp) : String :=
   | "c05" => Driver.C05.answer c
   | "fm" => Driver.FM.answer c
   | "c18" => Driver.C18.answer c
+  | "c19" => Driver.C19.answer c
   | _ => "bad-prop"
 
 partial def loop (h : IO.FS.Stream) (out : IO.FS.Stream) (p : Params) : IO Unit := do
